@@ -4,6 +4,7 @@ package pfcpiface
 
 import (
 	"fmt"
+	"google.golang.org/grpc/codes"
 	"math/rand"
 	"runtime"
 	"sort"
@@ -466,6 +467,7 @@ func c07EndToEnd(res *vResult) {
 			}
 			type sess struct {
 				up    uint64
+				n     int
 				teids map[uint16]uint32 // live CHOOSE PDRs
 				gone  []uint32          // TEIDs released by accepted modifications
 			}
@@ -483,7 +485,7 @@ func c07EndToEnd(res *vResult) {
 				if !ok || vDecodeReply(m).Cause != ie.CauseRequestAccepted {
 					continue
 				}
-				x := &sess{up: c01UPSEID(m), teids: map[uint16]uint32{}}
+				x := &sess{up: c01UPSEID(m), n: 52000 + k*16 + i, teids: map[uint16]uint32{}}
 				for _, c := range er.CreatedPDR {
 					id, _ := c.PDRID()
 					if ft, err := c.FTEID(); err == nil {
@@ -495,8 +497,10 @@ func c07EndToEnd(res *vResult) {
 			for _, x := range ss {
 				seq++
 				var mod vModSpec
-				kind := rng.Intn(4)
+				kind := rng.Intn(5)
 				switch kind {
+				case 4: // the downlink PDR is refreshed (same content): nothing of the uplink CHOOSE PDRs changes
+					mod = vModSpec{Seq: seq, SEID: x.up, UpPDR: []vPDRSpec{c10Session(0, 0, x.n).PDRs[1]}}
 				case 0: // remove the first CHOOSE PDR, but name an unknown FAR too: rejected as a whole
 					mod = vModSpec{Seq: seq, SEID: x.up, RmPDR: []uint16{1}, RmFAR: []uint32{99}}
 				case 1: // move PDR 1 to an F-TEID of the control plane's choice, rejected because of an unknown QER removal
@@ -576,5 +580,58 @@ func c07EndToEnd(res *vResult) {
 			}
 		}()
 		a.stop(vStopWatchdog)
+		// ---- phase 3 (UP4, every third case): a Session Deletion that the switch refuses leaves the session as it was:
+		// its record stays (so its F-SEID cannot be drawn again) and its chosen TEID stays allocated
+		if k%3 == 0 {
+			func() {
+				o := vDefaultOpts(true, vEnv.addr(4))
+				a4, err := vStartAgent(o)
+				if err != nil {
+					return
+				}
+				defer a4.stop(vStopWatchdog)
+				p, err := vNewPeer(vEnv.addr(31), o.N4)
+				if err != nil {
+					return
+				}
+				defer p.close()
+				if c01Request(p, p.assocSetup(1), 1) == nil {
+					return
+				}
+				est := c10Session(2, 0x900, 54000+k)
+				est.PDRs[0].Choose = true
+				m := c01Request(p, p.establish(est), 2)
+				er, ok := m.(*message.SessionEstablishmentResponse)
+				if !ok || vDecodeReply(m).Cause != ie.CauseRequestAccepted {
+					return
+				}
+				up := c01UPSEID(m)
+				var teid uint32
+				for _, c := range er.CreatedPDR {
+					if ft, err := c.FTEID(); err == nil {
+						teid = ft.TEID
+					}
+				}
+				a4.p4.armFaults(vP4Fault{FailRPC: map[int]codes.Code{1 + rng.Intn(2): codes.Internal}}) // (write numbers count from the arming)
+				dm := c01Request(p, p.deletion(3, up), 3)
+				a4.p4.armFaults(vP4Fault{})
+				res.event("deletions_refused_by_the_switch", 1)
+				if dm != nil && vDecodeReply(dm).Cause != ie.CauseRequestAccepted {
+					stored := false
+					a4.quiesced(func() {
+						if c := a4.conn(p.local); c != nil {
+							_, stored = c.store.GetSession(up)
+						}
+					})
+					if !stored {
+						res.violate("C07.E5", "record-gone-after-refused-deletion", fmt.Sprintf("the switch refused the deletion of session %#x (answered with a rejection, its entries are still installed) but the agent has dropped the session's record: the F-SEID can be drawn again for another session", up), nil)
+					}
+					if teid != 0 && !a4.iface.upf.fteidGenerator.IsAllocated(teid) {
+						res.violate("C07.E4", "live-teid-free-in-generator", fmt.Sprintf("the switch refused the deletion of session %#x, whose uplink entries still match on the UP-chosen TEID %#x, but the generator holds that TEID as free", up, teid), nil)
+					}
+				}
+				a4.p4.takeC16()
+			}()
+		}
 	}
 }
